@@ -798,6 +798,6 @@ def _is_near_target(x, target, zero_limit, significant_digits):
     if target == 0:
         return abs(x) < abs(zero_limit)
     else:
-        return round_to_n_sigdig(x, n=significant_digits) == round_to_n_sigdig(
+        return round_to_n_sigdig(float(x), n=significant_digits) == round_to_n_sigdig(
             target, n=significant_digits
         )
